@@ -6,6 +6,9 @@ import RevalModel.Impl.Parser
 
 namespace Reval
 
+def descKey : Str := "description".toList
+def nameKey : Str := "name".toList
+
 structure RuleOut where
   name : Str
   metadata : List (Str × Value)
@@ -14,7 +17,7 @@ deriving Repr
 
 /-- `Rule::description()` -/
 def RuleOut.description (r : RuleOut) : Option Str :=
-  match lookup r.metadata "description".toList with
+  match lookup r.metadata descKey with
   | some (.str s) => some s
   | _ => none
 
@@ -99,7 +102,7 @@ def builderParse : List (Str × Expr) → Option Str → List (Str × Value) →
   | (k, e) :: rest, name, md =>
     match flatten e with
     | some v =>
-      if k = "name".toList then
+      if k = nameKey then
         match v with
         | .str s => builderParse rest (some s) md
         | _ => none
@@ -111,6 +114,21 @@ def joinNl : List Str → Str
   | [x] => x
   | x :: xs => x ++ '\n' :: joinNl xs
 
+end RuleParse
+
+namespace RuleParse
+/-- the final assembly of `Rule::parse`, given the parsed metadata items, the expression and the text's
+    comment lines: `set_name` only if there was no `@name` (the first comment line); `set_description` only if
+    the metadata has no `description` key (the comment lines after the first, joined by newlines);
+    `build`: no name ⇒ MissingRuleName -/
+def assemble (name : Option Str) (md : List (Str × Value)) (e : Expr) (cl : List Str) : RuleRes :=
+  match (match name with | some n => some n | none => cl.head?) with
+  | some n =>
+    .ok ⟨n, (match cl with
+      | _ :: d :: ds => if (lookup md descKey).isSome then md
+                        else insertSorted descKey (.str (joinNl (d :: ds))) md
+      | _ => md), e⟩
+  | none => .missingName
 end RuleParse
 
 open RuleParse in
@@ -126,19 +144,6 @@ def parseRuleText (o : Oracle) (s : Str) : RuleRes :=
     | .ok (metas, e) _ =>
       match builderParse metas none [] with
       | none => .parseError
-      | some (name, md) =>
-        let cl := commentLines s
-        -- set_name: only if no @name; set_description: only if the metadata has no `description` key
-        let name' := match name with
-          | some n => some n
-          | none => cl.head?
-        let md' := match cl with
-          | _ :: d :: ds =>
-            if (lookup md "description".toList).isSome then md
-            else insertSorted "description".toList (.str (joinNl (d :: ds))) md
-          | _ => md
-        match name' with
-        | some n => .ok ⟨n, md', e⟩
-        | none => .missingName
+      | some (name, md) => assemble name md e (commentLines s)
 
 end Reval
